@@ -87,7 +87,7 @@ static double curvature(vt::Spline &sp, const Model &m, size_t j, int side) {
 // noise of curvature(): second difference with spacing h/4 of values S' carrying an error of 32 eps (Y/h + h F2)
 static double tcurv(const Model &m, size_t j) {
   double h = m.h(j);
-  if (m.type == "cubic") return 4096 * EPS * (m.Y / (h * h) + m.ct.F2) + 40 * m.ct.dF2;
+  if (m.type == "cubic") return 4096 * EPS * (m.Y / (h * h) + m.ct.F2 + m.ct.dF2) + 2 * m.ct.dF2;
   return 4096 * EPS * 16 * m.M / h;
 }
 
@@ -628,11 +628,11 @@ static Result run_smooth(const json &c) {
       r.discard = true;  // the 1-2-1 filter works on the index: straight lines are fixed points on uniform grids only
       return r;
     }
-    double Y = vmaxabs(y);
-    // y_k = a x_k + b carries eps*Y rounding; every pass averages three such values
-    double tol = 8 * EPS * Y * double(ns + 1) + 4 * g.xabs * EPS * c.value("a", 0.0);
-    tol = std::fabs(tol) + 8 * EPS * Y * (1e-9 * double(x.size()));  // grid only uniform to 1e-9
-    tol += 1e-9 * std::fabs(c.value("a", 0.0)) * g.hmax * double(ns);
+    // y_k = fl(a x_k + b) on x_k = fl(x0 + k step): deviation from exact collinearity in the index <= delta; a convex
+    // average never increases it, every pass adds three roundings of size eps*Y
+    double Y = vmaxabs(y), a = std::fabs((y.back() - y.front()) / (x.back() - x.front()));
+    double delta = a * (EPS * g.xabs + (g.hmax - g.hmin) * double(x.size())) + EPS * Y;
+    double tol = 8 * delta + 16 * EPS * Y * double(ns + 1);
     for (size_t i = 0; i < x.size(); ++i)
       if (!(std::fabs(t.y(Index(i)) - y[i]) <= tol)) {
         r.fail("Table::Smooth/straight-line", fmt("straight-line data changed at row %zu after %ld passes: %.17g -> %.17g (tol %.3g)", i, ns, y[i], t.y(Index(i)), tol));
